@@ -7,6 +7,8 @@ import CalicoVerif.Gen.C13
   `off <ver> <struct> <path>`                    → `<bit offset> <bit size>`
   `within <ver> <struct> <path> <bitoff> <bits>` → `ok` | `no:<bit offset> <bit size>`
   `inside <ver> <struct> <path> <bitoff> <bits>` → `ok` | `no:<bit offset> <bit size>`
+  `match <ver> <kind> <field> <prefix>`          → the `off:bits,…` loads (from the state pointer) a single-match
+                                                    rule must make, from the C layout (kind: cidr|ipset|port|proto)
   `enc <ver> <struct> <path>=le:<n>|num:<n>|raw:<hex> …` → hex of the structure with the values at the C
                                                     offsets (`num`: byte order from the C declared type,
                                                     big-endian for `__be16/32/64`, else little-endian)
@@ -88,6 +90,13 @@ def step (u : Unit) (line : String) : Unit × String :=
     match (structsOf v).bind (fun ss => findPath ss st path), o'.toNat?, n'.toNat? with
     | some (o, n), some a, some b => (u, if o ≤ a && a + b ≤ o + n then "ok" else s!"no:{o} {n}")
     | _, _, _ => (u, "bad-op")
+  | ["match", v, kind, field, pfx] =>
+    match structsOf v, pfx.toNat? with
+    | some ss, some p =>
+      match expectedMatch (v == "6") ss ⟨kind, field, p, []⟩ with
+      | some e => (u, if e.isEmpty then "-" else joinWith "," (e.map (fun a => s!"{a.1}:{a.2}")))
+      | none => (u, "bad-op")
+    | _, _ => (u, "bad-op")
   | "enc" :: v :: st :: fields =>
     match structsOf v with
     | none => (u, "bad-op")
